@@ -54,7 +54,48 @@ def run(tier):
     _d_configs(chk)
     _d_period(chk)
     _e_jacobian(chk)
+    _e_tolerance_chain(chk)
     return chk
+
+
+def _e_tolerance_chain(chk):
+    """The residual whose norm is compared with the convergence tolerance is produced by an event-terminated integration;
+    convergence at `tol` means nothing for the true flow unless that integration (and the event location) is at least as
+    accurate as the default tolerance at which success is declared.  Constants are read from the source."""
+    OPT = "hiten.algorithms.types.options"
+    SH = "hiten.algorithms.poincare.singlehit.backend"
+    omod, ocls = ri.find_def(OPT, "ConvergenceOptions")
+    tol = None
+    for st in ocls.body:
+        if isinstance(st, ast.AnnAssign) and isinstance(st.target, ast.Name) and st.target.id == "tol" and isinstance(st.value, ast.Constant):
+            tol = sp.Rational(str(st.value.value))
+    if tol is None:
+        raise AnalysisError("anchor: ConvergenceOptions.tol default not found")
+    smod, scls = ri.find_def(SH, "_SingleHitBackend")
+    fn = next((f for f in scls.body if isinstance(f, ast.FunctionDef) and f.name == "_cross_event_driven"), None)
+    if fn is None:
+        raise AnalysisError("anchor: _SingleHitBackend._cross_event_driven not found")
+    n = 0
+    for call in [c for c in ast.walk(fn) if isinstance(c, ast.Call) and ast.unparse(c.func).split(".")[-1] in ("RungeKutta", "AdaptiveRK", "_DOP853", "_RK45")]:
+        kws = {k.arg: k.value for k in call.keywords}
+        for name in ("rtol", "atol"):
+            v = kws.get(name)
+            if v is None or not isinstance(v, ast.Constant):
+                chk.fail("C05.e", f"{SH}::_SingleHitBackend._cross_event_driven[{name}]", f"the crossing integrator is built without a literal {name} ({ast.unparse(call)[:80]}): its accuracy is not tied to the correction tolerance")
+                continue
+            n += 1
+            val = sp.Rational(str(v.value))
+            chk.check(val <= tol, "C05.e", f"{SH}::_SingleHitBackend._cross_event_driven[{name}]",
+                      f"the crossing integration runs with {name}={v.value}, looser than the default convergence tolerance {float(tol)}: a residual below tol is then below the "
+                      "integration error and the corrected orbit does not close to a small multiple of tol", sample=f"{name}={v.value} <= ConvergenceOptions.tol={float(tol)}")
+    chk.floor("literal tolerances of the crossing integrator", n, 2)
+    # event location defaults
+    ecls = next((c for c in omod.tree.body if isinstance(c, ast.ClassDef) and c.name == "EventOptions"), None)
+    if ecls is not None:
+        for st in ecls.body:
+            if isinstance(st, ast.AnnAssign) and isinstance(st.target, ast.Name) and st.target.id in ("xtol", "gtol") and isinstance(st.value, ast.Constant):
+                chk.check(sp.Rational(str(st.value.value)) <= tol, "C05.e", f"{OPT}::EventOptions.{st.target.id}",
+                          f"default event {st.target.id}={st.value.value} is looser than the default convergence tolerance {float(tol)}", sample=f"{st.target.id}={st.value.value}", nontrivial=False)
 
 
 # ------------------------------------------------------------------------------------------------ a
